@@ -103,6 +103,8 @@ type State struct {
 	Depth      int // number of forks on this path
 	Assumed    []*Term // harness assumptions and assertions proved from them alone (no branch decisions)
 	NBranch    int     // number of branch decisions / concretisations in the path condition
+	WriteMark  int // objects with a smaller id existed before vpWriteMark()
+	OldWrites  int // writes to such objects since
 	Ack        map[string][]ackApp // uninterpreted-function applications made on this path
 	Lemmas     map[int]bool // proved assertions in PC (implied by the rest; skipped in feasibility queries)
 	lemOwned   bool
@@ -296,6 +298,9 @@ func (st *State) obj(id int) *ObjData {
 // wobj returns the object for writing (copy-on-write per epoch).
 func (st *State) wobj(id int) *ObjData {
 	o := st.obj(id)
+	if id < st.WriteMark {
+		st.OldWrites++
+	}
 	if o.Epoch == st.Epoch {
 		return o
 	}
